@@ -102,7 +102,7 @@ _RE_STATES = re.compile(r"^(\d+) states generated, (\d+) distinct states found, 
 _RE_COV = re.compile(r"^<(\w+) line \d+, col \d+ to line \d+, col \d+ of module (\w+)(?: \([\d ]+\))?>: (\d+):(\d+)")
 
 
-def run_mc(name, module, cfg, workers=None, timeout=1500, xmx="10g", simulate=None, coverage=True, required_actions=None):
+def run_mc(name, module, cfg, workers=None, timeout=1500, xmx="10g", simulate=None, coverage=True, required_actions=None, keep_output=False):
     """Exhaustive (or -simulate) TLC run of a scaled model.  Any failure is a ToolError."""
     md = fresh_dir("tlc/mc_" + name)
     cmd = ["tlc", "-workers", str(workers or MC_WORKERS), "-metadir", md, "-cleanup", "-noGenerateSpecTE"]
@@ -140,6 +140,8 @@ def run_mc(name, module, cfg, workers=None, timeout=1500, xmx="10g", simulate=No
             if res["actions"].get(a, 0) == 0:
                 raise ToolError("vacuity guard: action %s never taken in MC %s" % (a, name))
     log("[mc] %s: %d distinct / %d generated states in %.1fs" % (name, res["distinct"], res["generated"], wall))
+    if keep_output:
+        res = dict(res, output=out)
     return res
 
 
